@@ -52,13 +52,14 @@ Definition ieee (bs:bytes) : option dyadic :=
   let ex := (u / 2^52) mod 2^11 in
   let mant := u mod 2^52 in
   if ex =? 2047 then None else
+  if (ex =? 0) && (mant =? 0) then Some (0, 0) else     (* +-0.0 *)
   let m := if ex =? 0 then mant else mant + 2^52 in
   let e := if ex =? 0 then -1074 else ex - 1075 in
   Some (if sign =? 1 then - m else m, e).
 
 Definition dy_align (a b:dyadic) : Z * Z * Z :=
   let e := Z.min (snd a) (snd b) in
-  (fst a * 2^(snd a - e), fst b * 2^(snd b - e), e).
+  (Z.shiftl (fst a) (snd a - e), Z.shiftl (fst b) (snd b - e), e).
 Definition dy_sub (a b:dyadic) : dyadic := let '(x, y, e) := dy_align a b in (x - y, e).
 Definition dy_ltb (a b:dyadic) : bool := let '(x, y, _) := dy_align a b in x <? y.
 Definition dy_abs (a:dyadic) : dyadic := (Z.abs (fst a), snd a).
